@@ -66,6 +66,8 @@ func c01Witnesses() []witness {
 			{k: "if", e: wBin(tBool, "==", wInp(4), wLitU(1)), body: []*wstmt{wStore(0, &wexpr{k: "idx", ty: tU32, args: []*wexpr{{k: "var", ty: tArr(4, tU32), name: "arr"}, wBin(tU32, "%", wInp(5), wLitU(4))}})}},
 			wStore(1, &wexpr{k: "idx", ty: tU32, args: []*wexpr{{k: "var", ty: tArr(4, tU32), name: "arr"}, wBin(tU32, "%", wInp(6), wLitU(4))}}),
 		}), inp(11, 12, 13, 14, 0, 1, 2)},
+		{"f2iRange", baseWitness([]*wstmt{wStore(0, wBitcast(tU32, &wexpr{k: "cast", ty: tI32, args: []*wexpr{wBitcast(tF32, wInp(0))}}))}), inp(0x4f000000)},
+		{"f2iRange", baseWitness([]*wstmt{wStore(0, &wexpr{k: "cast", ty: tU32, args: []*wexpr{wBitcast(tF32, wInp(0))}})}), inp(0xbf800000)},
 		{"fordne", baseWitness([]*wstmt{wStore(0, sel(wBin(tBool, "!=", wBitcast(tF32, wInp(0)), wBitcast(tF32, wInp(1)))))}), inp(0x7fc00000, 0x3f800000)},
 	}
 }
